@@ -12,7 +12,7 @@ from quansino.moves.displacement import (
     DisplacementMove,
     HamiltonianDisplacementMove,
 )
-from quansino.moves.exchange import ExchangeMove
+from quansino.moves.exchange import CompositeExchangeMove, ExchangeMove
 from quansino.registry import register_class
 
 if TYPE_CHECKING:
@@ -33,6 +33,7 @@ moves_registry: dict[str, type[Move]] = {
     "CompositeMove": CompositeMove,
     "DisplacementMove": DisplacementMove,
     "CompositeDisplacementMove": CompositeDisplacementMove,
+    "CompositeExchangeMove": CompositeExchangeMove,
     "ExchangeMove": ExchangeMove,
     "HamiltonianDisplacementMove": HamiltonianDisplacementMove,
 }
